@@ -76,6 +76,9 @@ pub enum Mut {
     NonUtf8Tail(usize),
     /// bytes that are not UTF-8 are inserted at a char boundary inside the content (arg selects where)
     NonUtf8Inside(usize),
+    /// the file loses its write permission bits (`chmod a-w`: a checked-out file under Perforce, a Nix or Bazel output, a
+    /// read-only CI mount); its content is untouched, so a check is still decided by the content alone
+    ReadOnly,
 }
 
 #[derive(Clone, Debug, PartialEq)]
@@ -153,6 +156,7 @@ impl Step {
                 "InsertText" => Mut::InsertText(v.get("arg")?.as_u64()? as usize),
                 "NonUtf8Tail" => Mut::NonUtf8Tail(v.get("arg")?.as_u64()? as usize),
                 "NonUtf8Inside" => Mut::NonUtf8Inside(v.get("arg")?.as_u64()? as usize),
+                "ReadOnly" => Mut::ReadOnly,
                 _ => return None,
             }),
             "BreakInput" => Step::BreakInput(v.get("kind")?.as_str()?.to_string()),
@@ -458,6 +462,10 @@ impl FileState {
         }
     }
 }
+extern "C" {
+    fn geteuid() -> u32;
+}
+
 fn remove_any(p: &Path) {
     let _ = std::fs::remove_file(p);
     let _ = std::fs::remove_dir_all(p);
@@ -533,6 +541,15 @@ fn exec_in(world: &World, sc: &Scenario, dir: &Path, stats: &mut Stats) -> Optio
             }
             Step::Mutate(m) => {
                 let state = FileState::read(&outp);
+                if matches!(m, Mut::ReadOnly) {
+                    use std::os::unix::fs::PermissionsExt;
+                    if state.bytes().is_some() && std::fs::set_permissions(&outp, std::fs::Permissions::from_mode(0o444)).is_ok() {
+                        stats.hit("env_mutation_write_permission_removed");
+                    } else {
+                        stats.hit("env_mutation_skipped_no_file");
+                    }
+                    continue;
+                }
                 if matches!(m, Mut::Directory) {
                     remove_any(&outp);
                     std::fs::create_dir_all(&outp).expect("mkdir out.rs");
@@ -546,7 +563,7 @@ fn exec_in(world: &World, sc: &Scenario, dir: &Path, stats: &mut Stats) -> Optio
                     (Mut::Empty, _) => Some(Vec::new()),
                     (Mut::ReplaceBy(src), _) => Some(world.expected_output(src).unwrap_or_default().into_bytes()),
                     (_, None) => { stats.hit("env_mutation_skipped_no_file"); continue; }
-                    (Mut::Directory, _) => unreachable!(),
+                    (Mut::Directory, _) | (Mut::ReadOnly, _) => unreachable!(),
                     (Mut::NonUtf8, Some(c)) => { let mut o = vec![0xffu8, 0xfe, b'\n']; o.extend_from_slice(&c); Some(o) }
                     (Mut::PrependBom, Some(c)) => { let mut o = vec![0xefu8, 0xbb, 0xbf]; o.extend_from_slice(&c); Some(o) }
                     (Mut::NonUtf8Tail(k), Some(mut c)) => {
@@ -609,6 +626,7 @@ fn exec_in(world: &World, sc: &Scenario, dir: &Path, stats: &mut Stats) -> Optio
                     Mut::Delete => "env_mutation_delete", Mut::Empty => "env_mutation_empty", Mut::AppendGarbage => "env_mutation_append_garbage", Mut::ReplaceBy(_) => "env_mutation_replace_by_other_enum",
                     Mut::NonUtf8 => "env_mutation_non_utf8_content", Mut::Directory => "env_mutation_directory_in_place_of_file",
                     Mut::PrependBom => "env_mutation_prepend_bom", Mut::InsertText(_) => "env_mutation_insert_text",
+                    Mut::ReadOnly => unreachable!(),
                     Mut::NonUtf8Tail(_) => "env_mutation_non_utf8_tail_after_complete_content", Mut::NonUtf8Inside(_) => "env_mutation_non_utf8_inside_content",
                 });
                 dirty = true;
@@ -675,7 +693,13 @@ fn exec_in(world: &World, sc: &Scenario, dir: &Path, stats: &mut Stats) -> Optio
                 count_faults(&inv.log, stats);
                 // an output path that cannot be read as text (not UTF-8) or is not a file is a hard condition of the environment
                 let unreadable = matches!(before, FileState::Dir) || before.bytes().map(|b| std::str::from_utf8(b).is_err()).unwrap_or(false);
-                let hard = hard_rules(plan, *fmt) || unreadable;
+                // a file without write permission is a hard condition for a WRITE unless the process may write it anyway (root)
+                let unwritable = {
+                    use std::os::unix::fs::PermissionsExt;
+                    let ro = std::fs::metadata(&outp).map(|m| m.is_file() && m.permissions().mode() & 0o222 == 0).unwrap_or(false);
+                    ro && unsafe { geteuid() } != 0
+                };
+                let hard = hard_rules(plan, *fmt) || unreadable || unwritable;
                 let after = FileState::read(&outp);
                 if inv.code == 0 {
                     match after.bytes() {
@@ -805,7 +829,7 @@ fn gen_scenario(rng: &mut Rng, defs: &[Definition], index: u64, faults: bool) ->
             4 => Step::Mutate(Mut::FlipAlnum(rng.below(100_000))),
             5 => Step::Mutate(Mut::Truncate(rng.below(approx_len))),
             6 => Step::Write { fmt: false, plan: Plan { hash_seed: to_hex(&rng.bytes16()), rules: vec![format!("write:out.rs:{}:{}", rng.below(2), if rng.chance(1, 2) { "ENOSPC" } else { "EIO" }), format!("write:out.rs:*:SHORT:{}", rng.range(100, 3000))], rustfmt: "pass".into() } },
-            7 => Step::Mutate(match rng.below(5) { 0 => Mut::AppendGarbage, 1 => Mut::PrependBom, 2 => Mut::NonUtf8Tail(rng.below(3)), 3 => Mut::NonUtf8Inside(rng.below(100_000)), _ => Mut::InsertText(rng.below(3) * rng.below(50_000)) }),
+            7 => Step::Mutate(match rng.below(6) { 5 => Mut::ReadOnly, 0 => Mut::AppendGarbage, 1 => Mut::PrependBom, 2 => Mut::NonUtf8Tail(rng.below(3)), 3 => Mut::NonUtf8Inside(rng.below(100_000)), _ => Mut::InsertText(rng.below(3) * rng.below(50_000)) }),
             8 => Step::Mutate(Mut::ToLf),
             _ => Step::Edit { source: decorate(&defs[rng.below(defs.len())].source, rng) },
         });
@@ -832,7 +856,7 @@ fn gen_scenario(rng: &mut Rng, defs: &[Definition], index: u64, faults: bool) ->
             _ if rng.chance(1, 14) => Step::BreakInput(rng.pick(&["NonUtf8", "Missing", "NotRust", "Empty"]).to_string()),
             _ => Step::Mutate(match rng.below(17) {
                 12 => match rng.below(4) { 0 => Mut::NonUtf8, 1 => Mut::NonUtf8Inside(rng.below(100_000)), _ => Mut::NonUtf8Tail(rng.below(3)) },
-                13 => Mut::Directory,
+                13 => if rng.chance(1, 2) { Mut::Directory } else { Mut::ReadOnly },
                 14 => Mut::PrependBom,
                 15 | 16 => Mut::InsertText(if rng.chance(1, 3) { 0 } else { rng.below(100_000) }),
                 0 | 1 => Mut::ToCrlf,
